@@ -21,7 +21,7 @@ def expected_sizes(name, alg, cfg):
     return out
 
 
-def run(ctx):
+def run(ctx, ask=None):
     rng = ctx.rng
     ncfg = 160 if ctx.quick() else 2000
     cfgs = runs.gen_configs(rng, ncfg, sizes=(3, 4, 5, 6, 7, 9, 11, 12, 13))
@@ -35,6 +35,8 @@ def run(ctx):
         if err is not None:
             runs.note_aborted(ctx, cfg, err)
             continue
+        if ask is not None:
+            runs.genstep_replay(ctx, ask, alg, runs.segments(tr), inp)
         exp = expected_sizes(cfg["name"], alg, cfg)
         steps = [ev for ev in tr.events if ev[0] == "step"]
         bad = False
